@@ -14,6 +14,7 @@ import (
 	"context"
 	"encoding/json"
 	"fmt"
+	"log/slog"
 	"net/http"
 	"runtime"
 	"strings"
@@ -38,6 +39,9 @@ type c10Req struct {
 	Late       bool `json:"late,omitempty"`        // one more notification with the request's context after the handler returned
 	S2CTimeout bool `json:"s2c_timeout,omitempty"` // the nested request is not answered in time: the server cancels it
 	Drop       bool `json:"drop,omitempty"`        // cut and never resumed (no event store): the id is re-used by a later request
+	Upd        bool `json:"upd,omitempty"`         // the handler calls Server.ResourceUpdated with its own context (every session is subscribed)
+	Logs       int  `json:"logs,omitempty"`        // log records emitted through the session's slog LoggingHandler with the request's context
+	MRTR       bool `json:"mrtr,omitempty"`        // the handler first returns InputRequests (roots/list); the server asks the legacy client itself, then re-invokes it
 }
 
 type c10Spec struct {
@@ -62,6 +66,15 @@ func genC10(r *vh.Rand) c10Spec {
 				q.S2C = false // a raw client that cuts the stream may never see (and answer) the nested request
 			}
 			q.Late = r.Chance(1, 5)
+			if strings.HasPrefix(s.Mode, "stateful") && q.CutMs < 0 {
+				q.Upd = r.Chance(1, 5)
+				if r.Chance(1, 4) {
+					q.Logs = r.Range(1, 3)
+				}
+				if !q.S2C && r.Chance(1, 6) {
+					q.MRTR = true
+				}
+			}
 			if q.S2C && r.Chance(1, 3) {
 				q.S2CTimeout = true
 			}
@@ -69,7 +82,7 @@ func genC10(r *vh.Rand) c10Spec {
 			if strings.HasPrefix(s.Mode, "stateful") && r.Chance(1, 8) {
 				// the same id used twice in one session: concurrently, or again after the first exchange was dropped
 				d := q
-				d.S2C, d.S2CTimeout, d.CutMs = false, false, -1
+				d.S2C, d.S2CTimeout, d.CutMs, d.Upd, d.Logs, d.MRTR = false, false, -1, false, 0, false
 				if r.Bool() {
 					d.StartMs = q.StartMs // concurrent duplicate
 				} else if !s.Store {
@@ -155,13 +168,42 @@ func runC10(c *vh.Case, spec c10Spec) {
 		log.Add("emit", "tag", t.String())
 		return t.enc()
 	}
-	server := mcp.NewServer(&mcp.Implementation{Name: "s", Version: "1"}, nil)
+	server := mcp.NewServer(&mcp.Implementation{Name: "s", Version: "1"}, &mcp.ServerOptions{
+		SubscribeHandler:   func(context.Context, *mcp.SubscribeRequest) error { return nil },
+		UnsubscribeHandler: func(context.Context, *mcp.UnsubscribeRequest) error { return nil },
+	})
+	server.AddResource(&mcp.Resource{URI: "file:///shared", Name: "shared"}, func(context.Context, *mcp.ReadResourceRequest) (*mcp.ReadResourceResult, error) {
+		return &mcp.ReadResourceResult{}, nil
+	})
+	var lmu sync.Mutex
+	loggers := map[*mcp.ServerSession]*slog.Logger{} // one logging handler per session, shared by its requests
 	server.AddTool(&mcp.Tool{Name: "chat", InputSchema: json.RawMessage(`{"type":"object"}`)}, func(ctx context.Context, req *mcp.CallToolRequest) (*mcp.CallToolResult, error) {
 		var a struct {
 			Sess, Req, Pre, Gap, Inst int
 			S2C, Late, S2CTimeout     bool
+			Upd, MRTR                 bool
+			Logs                      int
 		}
 		json.Unmarshal(req.Params.Arguments, &a)
+		if a.MRTR && len(req.Params.InputResponses) == 0 {
+			// first round: ask for the client's roots; for a legacy client the server sends the request on this call's behalf
+			return &mcp.CallToolResult{InputRequests: mcp.InputRequestMap{"roots": &mcp.ListRootsParams{Meta: mcp.Meta{"tag": emit(c10Tag{a.Sess, a.Req, 2, "s2c", a.Inst})}}}}, nil
+		}
+		if a.Logs > 0 {
+			lmu.Lock()
+			lg := loggers[req.Session]
+			if lg == nil {
+				lg = slog.New(mcp.NewLoggingHandler(req.Session, nil))
+				loggers[req.Session] = lg
+			}
+			lmu.Unlock()
+			for k := 1; k <= a.Logs; k++ {
+				lg.InfoContext(ctx, emit(c10Tag{a.Sess, a.Req, 100 + k, "note", a.Inst}))
+			}
+		}
+		if a.Upd {
+			server.ResourceUpdated(ctx, &mcp.ResourceUpdatedNotificationParams{URI: "file:///shared", Meta: mcp.Meta{"by": emit(c10Tag{a.Sess, a.Req, 1, "upd", a.Inst})}})
+		}
 		for k := 1; k <= a.Pre; k++ {
 			time.Sleep(ms(a.Gap))
 			req.Session.NotifyProgress(ctx, &mcp.ProgressNotificationParams{ProgressToken: "t", Progress: float64(k), Message: emit(c10Tag{a.Sess, a.Req, k, "note", a.Inst})})
@@ -220,6 +262,9 @@ func runC10(c *vh.Case, spec c10Spec) {
 				Message   string          `json:"message"`
 				Meta      map[string]any  `json:"_meta"`
 				RequestID json.RawMessage `json:"requestId"`
+				Data      struct {
+					Msg string `json:"msg"`
+				} `json:"data"`
 			} `json:"params"`
 			Result struct {
 				Content []struct {
@@ -234,6 +279,10 @@ func runC10(c *vh.Case, spec c10Spec) {
 		switch {
 		case m.Method == "notifications/progress":
 			raw = m.Params.Message
+		case m.Method == "notifications/message":
+			raw = m.Params.Data.Msg
+		case m.Method == "notifications/resources/updated":
+			raw, _ = m.Params.Meta["by"].(string)
 		case m.Method == "roots/list":
 			raw, _ = m.Params.Meta["tag"].(string)
 			if t, ok := parseC10Tag(raw); ok {
@@ -276,6 +325,8 @@ func runC10(c *vh.Case, spec c10Spec) {
 			}
 			sids[i] = rh.Get("Mcp-Session-Id")
 			ip.Do(ctx, "POST", "http://example.test/mcp", hdr(sids[i]), []byte(`{"jsonrpc":"2.0","method":"notifications/initialized"}`))
+			ip.Do(ctx, "POST", "http://example.test/mcp", hdr(sids[i]), []byte(`{"jsonrpc":"2.0","id":"sub","method":"resources/subscribe","params":{"uri":"file:///shared"}}`))
+			ip.Do(ctx, "POST", "http://example.test/mcp", hdr(sids[i]), []byte(`{"jsonrpc":"2.0","id":"lvl","method":"logging/setLevel","params":{"level":"debug"}}`))
 			for ss := range server.Sessions() {
 				if ss.ID() == sids[i] {
 					ssOf[i] = ss
@@ -335,7 +386,7 @@ func runC10(c *vh.Case, spec c10Spec) {
 			if stateful {
 				sid, exSess = sids[q.Sess], q.Sess
 			}
-			body := fmt.Sprintf(`{"jsonrpc":"2.0","id":%d,"method":"tools/call","params":{"name":"chat","arguments":{"sess":%d,"req":%d,"pre":%d,"gap":%d,"s2c":%v,"inst":%d,"late":%v,"s2ctimeout":%v}}}`, q.ID, q.Sess, q.ID, q.Pre, q.GapMs, q.S2C, q.Inst, q.Late, q.S2CTimeout)
+			body := fmt.Sprintf(`{"jsonrpc":"2.0","id":%d,"method":"tools/call","params":{"name":"chat","arguments":{"sess":%d,"req":%d,"pre":%d,"gap":%d,"s2c":%v,"inst":%d,"late":%v,"s2ctimeout":%v,"upd":%v,"logs":%d,"mrtr":%v}}}`, q.ID, q.Sess, q.ID, q.Pre, q.GapMs, q.S2C, q.Inst, q.Late, q.S2CTimeout, q.Upd, q.Logs, q.MRTR)
 			ectx, cancel := context.WithCancel(ctx)
 			defer cancel()
 			req, _ := http.NewRequestWithContext(ectx, "POST", "http://example.test/mcp", strings.NewReader(body))
@@ -496,8 +547,22 @@ func runC10(c *vh.Case, spec c10Spec) {
 		}
 	}
 	count := map[string]int{}
+	updSeen := map[string]int{}
 	for _, s := range seen {
 		t := s.Tag
+		if t.Kind == "upd" {
+			// fan-out to every subscribed session: for the others it is a message issued outside any of their requests
+			switch {
+			case s.ExSess == t.Sess && s.ExKind != "standalone" && (s.ExReq != t.Req || (s.ExInst != 0 && s.ExInst != t.Inst)):
+				c.Violate("in-request-message-misrouted", "%s was issued while handling request %d but travelled on the %s exchange of request %d", t, t.Req, s.ExKind, s.ExReq)
+				return
+			case s.ExSess != t.Sess && s.ExKind != "standalone":
+				c.Violate("out-of-band-message-misrouted", "resources/updated issued by session %d's request %d reached session %d on the %s exchange of its request %d, not on its standalone stream: %s", t.Sess, t.Req, s.ExSess, s.ExKind, s.ExReq, s.Wire)
+				return
+			}
+			updSeen[fmt.Sprintf("%s@%d", t, s.ExSess)]++
+			continue
+		}
 		count[t.String()]++
 		if stateful && s.ExSess != t.Sess {
 			c.Violate("cross-session-delivery", "message %s (emitted for session %d) was delivered on an exchange of session %d (%s opened by request %d): %s", t, t.Sess, s.ExSess, s.ExKind, s.ExReq, s.Wire)
@@ -560,6 +625,17 @@ func runC10(c *vh.Case, spec c10Spec) {
 	for tag := range emitted {
 		var t c10Tag
 		fmt.Sscanf(tag, "s%d/r%d/", &t.Sess, &t.Req)
+		if strings.Contains(tag, "/upd") {
+			// every other session keeps its standalone stream attached: it must get the update exactly once
+			for i := 0; i < spec.Sessions; i++ {
+				if i != t.Sess && !spec.Store && updSeen[fmt.Sprintf("%s@%d", tag, i)] != 1 {
+					c.Violate("message-lost", "resources/updated %s reached session %d %d time(s) (it is subscribed and its standalone stream is attached)", tag, i, updSeen[fmt.Sprintf("%s@%d", tag, i)])
+					emu.Unlock()
+					return
+				}
+			}
+			continue
+		}
 		if cutReq[fmt.Sprintf("%d/%d", t.Sess, t.Req)] || dupID[fmt.Sprintf("%d/%d", t.Sess, t.Req)] || strings.Contains(tag, "/late") {
 			continue // cut exchanges, deliberately duplicated ids and late messages: delivery is not fixed
 		}
